@@ -9,6 +9,8 @@
 // in  = kind, nq, (id parent open capMask capCPU capMem capGPU)*,
 //
 //	nj, (id queue phase hasMin minMask minCPU minMem minGPU minMember ntasks tCPU tMem tGPU running)*
+//	running = how many of the job's ntasks pods are Running (the rest are Pending): PodGroups that are
+//	already Inqueue with 0 .. minMember-1 pods allocated stand next to Pending ones
 //
 // units: milli-cpu, MiB, gpus.  Queue 1 is "root" when kind = 2.  All pods of a job are alike.
 // law input = kind, queues as above, jobs as (id queue phaseBefore phaseAfter hasMin minMask min*3
@@ -75,7 +77,7 @@ func runEnqueueCase(in []int64) []int64 {
 		for i := int64(0); i < j.NT; i++ {
 			tid++
 			st := int64(sched.SPending)
-			if j.Running != 0 {
+			if i < j.Running {
 				st = sched.SRunning
 			}
 			s.Tasks = append(s.Tasks, VTask{ID: tid, Job: j.ID, CPU: j.TCPU, Mem: j.TMem * mib, GPU: j.TGPU, Status: st})
@@ -104,8 +106,8 @@ func runEnqueueCase(in []int64) []int64 {
 	for _, j := range js {
 		after := phaseKey(string(w.ssn.Jobs[sched.JobID(j.ID)].PodGroup.Status.Phase))
 		an, a0, a1, a2 := int64(0), int64(0), int64(0), int64(0)
-		if j.Running != 0 {
-			an, a0, a1, a2 = j.NT, j.NT*j.TCPU, j.NT*j.TMem, j.NT*j.TGPU
+		if k := min(j.Running, j.NT); k > 0 {
+			an, a0, a1, a2 = k, k*j.TCPU, k*j.TMem, k*j.TGPU
 		}
 		out = append(out, j.ID, j.Queue, j.Phase, after, j.HasMin, j.Mask, j.CPU, j.Mem, j.GPU, j.MinMember, an, a0, a1, a2, votes[j.ID])
 	}
@@ -184,8 +186,8 @@ func genEnqueueCase(r *vh.Rng) []int64 {
 			if r.Chance(1, 4) {
 				j.TGPU = 1
 			}
-			if j.Phase != 1 && r.Chance(2, 3) {
-				j.Running = 1
+			if j.Phase != 1 && r.Chance(3, 4) {
+				j.Running = int64(r.Range(0, int(j.NT))) // 0 .. all of them: also fewer than minMember
 			}
 		}
 		js = append(js, j)
